@@ -10,21 +10,122 @@ package redis
 // ops:  ft <ms> | acquire <i> | release <i> | setexpire <i> <seconds> | ids
 //       race <i> <j> ...   Acquire of distinct instances from concurrent goroutines (released together by a barrier)
 //       down | up          miniredis.SetError: every command fails / works again
+//       inj <p> <acquire i|release i> [ <op> ; <op> ... ]
+//                          the call runs with a go-redis hook (redis.WithHook) armed: immediately before the
+//                          p-th Redis command the call sends (counting every round trip, also an EVALSHA that
+//                          is answered NOSCRIPT), the bracketed operations (ft / acquire / release / setexpire of
+//                          any instances) are executed; if the call sends fewer than p commands they are
+//                          executed after it returned.  So other instances' operations and clock advances are
+//                          placed BETWEEN the individual Redis commands of one call.
+//       scriptflush        SCRIPT FLUSH: the next script run is EVALSHA -> NOSCRIPT (nothing executed), then EVAL
+//       lost <acquire i|release i>   the reply of the call's first executed command is dropped after Redis
+//                          executed it (the hook returns a connection error instead): the caller sees an error
 // obs:  <true|false|ok|err> k0=<owner>:<pttl>|k0=- ...        race => won=<i,j|-> <store>
+//       inj  => <res> cmds=<name,name!,...> at=<p|after> inner=<res,res,...|-> <store>
+//                          cmds: the commands the call sent, `!` = answered with an error (nothing executed)
+//       lost => err cmds=<...> <store>
 
 import (
+	"context"
+	"errors"
 	"fmt"
 	"sort"
 	"strconv"
 	"strings"
 	"sync"
+	"sync/atomic"
 	"testing"
 	"time"
 
 	"github.com/alicebob/miniredis/v2"
+	red "github.com/redis/go-redis/v9"
 	"github.com/zeromicro/go-zero/core/logx"
 	"github.com/zeromicro/go-zero/internal/verifh"
 )
+
+// c19Hook is the go-redis hook installed through redis.WithHook: while armed it counts and records every
+// command the call under observation sends, runs the injected operations before the pos-th one, and can drop
+// the reply of the first command Redis executed.
+type c19Hook struct {
+	armed atomic.Bool
+	pos   int    // run `run` immediately before the pos-th command
+	count int    // commands seen so far
+	fired int    // the command number before which `run` ran (0 = not yet)
+	run   func() // injected operations
+	lose  bool   // drop the reply of the first executed command
+	lost  bool
+	cmds  []string // names of the commands sent; "!" appended if answered with an error
+}
+
+var errC19Lost = errors.New("verif: connection lost after the command was executed")
+
+func (h *c19Hook) arm(pos int, run func(), lose bool) {
+	h.pos, h.count, h.fired, h.run, h.lose, h.lost, h.cmds = pos, 0, 0, run, lose, false, nil
+	h.armed.Store(true)
+}
+
+func (h *c19Hook) disarm() { h.armed.Store(false) }
+
+func (h *c19Hook) before() {
+	h.count++
+	if h.count == h.pos && h.run != nil {
+		run := h.run
+		h.run = nil
+		h.fired = h.count
+		h.armed.Store(false) // the injected operations use the same client
+		run()
+		h.armed.Store(true)
+	}
+}
+
+func (h *c19Hook) after(name string, err error) error {
+	if err != nil && !errors.Is(err, red.Nil) {
+		h.cmds = append(h.cmds, name+"!")
+		return err
+	}
+	h.cmds = append(h.cmds, name)
+	if h.lose && !h.lost {
+		h.lost = true
+		return errC19Lost
+	}
+	return err
+}
+
+func (h *c19Hook) DialHook(next red.DialHook) red.DialHook { return next }
+
+func (h *c19Hook) ProcessHook(next red.ProcessHook) red.ProcessHook {
+	return func(ctx context.Context, cmd red.Cmder) error {
+		if !h.armed.Load() {
+			return next(ctx, cmd)
+		}
+		h.before()
+		err := h.after(cmd.Name(), next(ctx, cmd))
+		if err == errC19Lost {
+			cmd.SetErr(err)
+		}
+		return err
+	}
+}
+
+func (h *c19Hook) ProcessPipelineHook(next red.ProcessPipelineHook) red.ProcessPipelineHook {
+	return func(ctx context.Context, cmds []red.Cmder) error {
+		if !h.armed.Load() {
+			return next(ctx, cmds)
+		}
+		h.before()
+		names := make([]string, len(cmds))
+		for i, c := range cmds {
+			names[i] = c.Name()
+		}
+		err := h.after("pipeline("+strings.Join(names, "+")+")", next(ctx, cmds))
+		if err == errC19Lost {
+			for _, c := range cmds {
+				c.SetErr(err)
+			}
+		}
+		return err
+	}
+}
 
 // c19Sim is the generator's own rough picture of the store (only used to aim clock advances at
 // lease boundaries; the executor never looks at it).
@@ -100,10 +201,46 @@ func c19Exhaustive(variant int) []verifh.Section {
 	return out
 }
 
+// c19ExhaustiveInj: every sequence  <base> <base> <inj> <tail>  on one key with two instances: all calls,
+// both positions, and the inner blocks that matter (lease runs out and the competitor acquires / competitor
+// acquires / competitor releases / one millisecond passes) — the class "something happens between the Redis
+// commands of one call" enumerated on a small scope (thorough tier).
+func c19ExhaustiveInj() []verifh.Section {
+	base := []string{"acquire 0", "acquire 1", "release 0", "ft 499", "ft 1", "scriptflush"}
+	tail := []string{"acquire 0", "acquire 1", "release 0", "release 1", "ft 500"}
+	var injs []string
+	for _, call := range []string{"acquire", "release"} {
+		for i := 0; i < 2; i++ {
+			o := 1 - i
+			for p := 1; p <= 2; p++ {
+				for _, inner := range []string{
+					fmt.Sprintf("ft 500 ; acquire %d", o), fmt.Sprintf("acquire %d", o), fmt.Sprintf("release %d", o), "ft 1",
+				} {
+					injs = append(injs, fmt.Sprintf("inj %d %s %d [ %s ]", p, call, i, inner))
+				}
+			}
+		}
+	}
+	var out []verifh.Section
+	for _, a := range base {
+		for _, b := range base {
+			for _, c := range injs {
+				for _, d := range tail {
+					out = append(out, verifh.Section{Cfg: "n=2 keys=1", Ops: []string{a, b, c, d}})
+				}
+			}
+		}
+	}
+	return out
+}
+
 func c19Gen(r *verifh.Rng) []verifh.Section {
 	var secs []verifh.Section
 	if verifh.Thorough() {
 		secs = append(secs, c19Exhaustive(int(verifh.Seed()%3))...)
+		if verifh.Seed()%3 == 1 {
+			secs = append(secs, c19ExhaustiveInj()...)
+		}
 	}
 	nsec := verifh.Scale(150, 800)
 	for s := 0; s < nsec; s++ {
@@ -131,6 +268,44 @@ func c19Gen(r *verifh.Rng) []verifh.Section {
 		acq := func(i int) { add("acquire %d", i); sim.acquire(i, nkeys) }
 		rel := func(i int) { add("release %d", i); sim.release(i, nkeys) }
 		setexp := func(i, sec int) { add("setexpire %d %d", i, sec); sim.secs[i] = sec }
+		simApply := func(op string) {
+			f := strings.Fields(op)
+			switch f[0] {
+			case "ft":
+				sim.ft(verifh.Atoi(f[1]))
+			case "acquire":
+				sim.acquire(verifh.Atoi(f[1]), nkeys)
+			case "release":
+				sim.release(verifh.Atoi(f[1]), nkeys)
+			case "setexpire":
+				sim.secs[verifh.Atoi(f[1])] = verifh.Atoi(f[2])
+			}
+		}
+		// inj: `inner` is executed immediately before the p-th Redis command of the call (the real code
+		// sends one, or two when the script is not yet cached), else after the call
+		inj := func(p int, call string, i int, inner ...string) {
+			if r.Chance(1, 4) {
+				add("scriptflush") // this call's script run takes two round trips; p=2 falls between them
+			}
+			add("inj %d %s %d [ %s ]", p, call, i, strings.Join(inner, " ; "))
+			outer := fmt.Sprintf("%s %d", call, i)
+			if p == 1 {
+				// `seconds` is loaded before the first command
+				sec := sim.secs[i]
+				for _, in := range inner {
+					simApply(in)
+				}
+				now := sim.secs[i]
+				sim.secs[i] = sec
+				simApply(outer)
+				sim.secs[i] = now
+			} else {
+				simApply(outer)
+				for _, in := range inner {
+					simApply(in)
+				}
+			}
+		}
 		other := func(i int) int { // another instance on the same key, if there is one
 			var cands []int
 			for j := i % nkeys; j < n; j += nkeys {
@@ -154,7 +329,7 @@ func c19Gen(r *verifh.Rng) []verifh.Section {
 		for j := 0; j < nops; j++ {
 			i := r.Intn(n)
 			k := i % nkeys
-			switch x := r.Intn(100); {
+			switch x := r.Intn(126); {
 			case x < 22:
 				acq(i)
 			case x < 36:
@@ -162,8 +337,15 @@ func c19Gen(r *verifh.Rng) []verifh.Section {
 			case x < 44:
 				setexp(i, r.Pick(0, 1, 2, 3, 5, 10, r.Range(0, 100)))
 			case x < 46:
-				// out-of-domain seconds: uint32 conversion wraps (modelled, outside the property)
-				setexp(i, r.Pick(-1, -2, 1<<32, 1<<32+1, -(1 << 32), 1<<31, 1<<32-1))
+				if r.Bool() {
+					// out-of-domain seconds: uint32 conversion wraps (modelled, outside the property)
+					setexp(i, r.Pick(-1, -2, 1<<32, 1<<32+1, -(1<<32)))
+				} else {
+					// large but valid seconds: seconds*1000+500 must not wrap in 32 bits (2147483 s is the last
+					// value whose lease fits in int32, 4294967 s in uint32)
+					setexp(i, r.Pick(2147483, 2147484, 4294967, 4294968, 1<<31-1, 1<<31, 1<<32-1))
+					acq(i)
+				}
 			case x < 60:
 				// aim at the boundary of the lease currently running on a key
 				if sim.holder[k] >= 0 {
@@ -250,9 +432,96 @@ func c19Gen(r *verifh.Rng) []verifh.Section {
 					ft(r.Pick(1, 500))
 				}
 				add("up")
-			default:
+			case x < 100:
 				rel(i)
 				rel(other(i))
+			// ---- operations of other instances / clock advances BETWEEN the Redis commands of one call ----
+			case x < 106:
+				// the holder's lease runs out in the middle of its Release and a competitor takes the lock
+				a, b := i, other(i)
+				acq(a)
+				if r.Bool() {
+					ft(r.Pick(0, 1, sim.rem[k]/2))
+				}
+				inj(r.Pick(1, 2, 2, 2, 3), "release", a,
+					fmt.Sprintf("ft %d", max(0, sim.rem[k]+r.Pick(-1, 0, 0, 1, 250))), fmt.Sprintf("acquire %d", b))
+				if r.Bool() {
+					acq(other(i))
+				} else {
+					rel(b)
+				}
+			case x < 110:
+				// ... in the middle of the holder's refreshing Acquire
+				a, b := i, other(i)
+				acq(a)
+				inj(r.Pick(1, 2, 2, 3), "acquire", a,
+					fmt.Sprintf("ft %d", max(0, sim.rem[k]+r.Pick(-1, 0, 0, 1))), fmt.Sprintf("acquire %d", b))
+				rel(a)
+				rel(b)
+			case x < 113:
+				// a competitor acquires in the middle of an Acquire on a (probably) free key
+				a, b := i, other(i)
+				if sim.holder[k] >= 0 {
+					rel(sim.holder[k])
+				}
+				inj(r.Pick(1, 2, 2, 3), "acquire", a, fmt.Sprintf("acquire %d", b))
+				rel(a)
+				rel(b)
+			case x < 115:
+				// the holder releases in the middle of a competitor's Acquire
+				a, b := i, other(i)
+				acq(b)
+				inj(r.Pick(1, 2, 2, 3), "acquire", a, fmt.Sprintf("release %d", b))
+				acq(b)
+			case x < 117:
+				// SetExpire lands between the load of `seconds` and the script run
+				sec := r.Pick(0, 1, 2, 5)
+				inj(r.Pick(1, 1, 2), "acquire", i, fmt.Sprintf("setexpire %d %d", i, sec))
+				ft(sim.rem[k] + r.Pick(-1, 0))
+				acq(other(i))
+			case x < 123:
+				// anything in the middle of anything
+				var inner []string
+				for c := r.Range(1, 3); c > 0; c-- {
+					o := r.Intn(n)
+					switch r.Intn(5) {
+					case 0:
+						inner = append(inner, fmt.Sprintf("acquire %d", o))
+					case 1:
+						inner = append(inner, fmt.Sprintf("release %d", o))
+					case 2:
+						inner = append(inner, fmt.Sprintf("setexpire %d %d", o, r.Pick(0, 1, 2)))
+					case 3:
+						if sim.holder[k] >= 0 {
+							inner = append(inner, fmt.Sprintf("ft %d", max(0, sim.rem[k]+r.Pick(-1, 0, 1))))
+						} else {
+							inner = append(inner, fmt.Sprintf("ft %d", r.Pick(0, 1, 499, 500, 501)))
+						}
+					default:
+						inner = append(inner, fmt.Sprintf("ft %d", r.Pick(0, 1, 100, 500, 1500)))
+					}
+				}
+				inj(r.Range(1, 3), r.PickS("acquire", "release"), i, inner...)
+			default:
+				// the reply is lost after Redis executed the script: the caller sees an error; what it does
+				// next (release, acquire again) must behave as for the state Redis is really in
+				if r.Bool() {
+					add("lost acquire %d", i)
+					sim.acquire(i, nkeys)
+					switch r.Intn(3) {
+					case 0:
+						rel(i)
+					case 1:
+						acq(i)
+					default:
+						acq(other(i))
+					}
+				} else {
+					acq(i)
+					add("lost release %d", i)
+					sim.release(i, nkeys)
+					acq(other(i))
+				}
 			}
 		}
 		secs = append(secs, verifh.Section{Cfg: fmt.Sprintf("n=%d keys=%d", n, nkeys), Ops: ops})
@@ -263,7 +532,8 @@ func c19Gen(r *verifh.Rng) []verifh.Section {
 func TestVerifC19(t *testing.T) {
 	logx.Disable()
 	mr := miniredis.RunT(t)
-	client := MustNewRedis(RedisConf{Host: mr.Addr(), Type: NodeType})
+	hook := &c19Hook{}
+	client := MustNewRedis(RedisConf{Host: mr.Addr(), Type: NodeType}, WithHook(hook))
 	secs := verifh.Sections(c19Gen)
 	verifh.Run(t, secs, func(cfg verifh.Cfg) (func(op []string) string, func()) {
 		n := cfg.Int("n", 0)
@@ -271,14 +541,21 @@ func TestVerifC19(t *testing.T) {
 		if n <= 0 || nkeys <= 0 {
 			return func([]string) string { return "bad-cfg" }, nil
 		}
+		hook.disarm()
 		mr.SetError("")
 		mr.FlushAll()
 		locks := make([]*RedisLock, n)
 		idOf := map[string]int{}
 		dup := false
 		idLen := -1
+		idAlpha := true
 		for i := range locks {
 			locks[i] = NewRedisLock(client, fmt.Sprintf("k%d", i%nkeys))
+			for _, ch := range locks[i].id {
+				if !(ch >= 'a' && ch <= 'z' || ch >= 'A' && ch <= 'Z' || ch >= '0' && ch <= '9') {
+					idAlpha = false
+				}
+			}
 			if _, ok := idOf[locks[i].id]; ok {
 				dup = true
 			} else {
@@ -339,23 +616,107 @@ func TestVerifC19(t *testing.T) {
 			}
 			return "false"
 		}
-		step := func(op []string) string {
-			res := "ok"
+		// simple: one clock advance / call / SetExpire; the result without the store
+		simple := func(op []string) (string, bool) {
 			switch {
-			case op[0] == "ft" && len(op) == 2:
+			case len(op) == 2 && op[0] == "ft":
 				ms := verifh.Atoi64(op[1])
 				if ms < 0 {
-					return "bad-op"
+					return "", false
 				}
 				if ms > 0 {
 					mr.FastForward(time.Duration(ms) * time.Millisecond)
 				}
-			case op[0] == "acquire" && len(op) == 2:
-				res = boolRes(inst(op[1]).Acquire())
-			case op[0] == "release" && len(op) == 2:
-				res = boolRes(inst(op[1]).Release())
-			case op[0] == "setexpire" && len(op) == 3:
+				return "ok", true
+			case len(op) == 2 && op[0] == "acquire":
+				return boolRes(inst(op[1]).Acquire()), true
+			case len(op) == 2 && op[0] == "release":
+				return boolRes(inst(op[1]).Release()), true
+			case len(op) == 3 && op[0] == "setexpire":
 				inst(op[1]).SetExpire(int(verifh.Atoi64(op[2])))
+				return "ok", true
+			}
+			return "", false
+		}
+		cmdsTok := func() string {
+			if len(hook.cmds) == 0 {
+				return "cmds=-"
+			}
+			return "cmds=" + strings.Join(hook.cmds, ",")
+		}
+		step := func(op []string) string {
+			res := "ok"
+			switch {
+			case op[0] == "inj" && len(op) >= 6:
+				// inj <p> <call> <i> [ op ; op ... ]
+				pos := verifh.Atoi(op[1])
+				outer := op[2:4]
+				if pos < 1 || (outer[0] != "acquire" && outer[0] != "release") || op[4] != "[" || op[len(op)-1] != "]" {
+					return "bad-op"
+				}
+				var inner [][]string
+				var cur []string
+				for _, tk := range op[5 : len(op)-1] {
+					if tk == ";" {
+						inner = append(inner, cur)
+						cur = nil
+					} else {
+						cur = append(cur, tk)
+					}
+				}
+				inner = append(inner, cur)
+				for _, in := range inner { // validate before anything runs
+					if len(in) == 0 || !(in[0] == "ft" && len(in) == 2 || in[0] == "acquire" && len(in) == 2 ||
+						in[0] == "release" && len(in) == 2 || in[0] == "setexpire" && len(in) == 3) {
+						return "bad-op"
+					}
+					if in[0] != "ft" {
+						inst(in[1])
+					}
+				}
+				inst(outer[1])
+				var innerRes []string
+				runInner := func() {
+					for _, in := range inner {
+						r, ok := simple(in)
+						if !ok {
+							r = "bad"
+						}
+						innerRes = append(innerRes, r)
+					}
+				}
+				hook.arm(pos, runInner, false)
+				r, _ := simple(outer)
+				hook.disarm()
+				at := "after"
+				if hook.fired > 0 {
+					at = strconv.Itoa(hook.fired)
+				} else {
+					runInner()
+				}
+				return fmt.Sprintf("%s %s at=%s inner=%s %s", r, cmdsTok(), at, strings.Join(innerRes, ","), dump())
+			case op[0] == "lost" && len(op) == 3 && (op[1] == "acquire" || op[1] == "release"):
+				inst(op[2])
+				hook.arm(0, nil, true)
+				r, _ := simple(op[1:])
+				hook.disarm()
+				return fmt.Sprintf("%s %s %s", r, cmdsTok(), dump())
+			case op[0] == "ft" || op[0] == "acquire" || op[0] == "release" || op[0] == "setexpire":
+				r, ok := simple(op)
+				if !ok {
+					return "bad-op"
+				}
+				res = r
+			case op[0] == "scriptflush" && len(op) == 1:
+				// Redis forgets the cached scripts: the next script run gets NOSCRIPT for its EVALSHA and sends EVAL
+				conn, err := getRedis(client)
+				if err != nil {
+					return "err"
+				}
+				if err := conn.ScriptFlush(context.Background()).Err(); err != nil {
+					return "err"
+				}
+				return "ok"
 			case op[0] == "down" && len(op) == 1:
 				mr.SetError("LOADING verif: redis is down")
 				return "ok"
@@ -408,6 +769,9 @@ func TestVerifC19(t *testing.T) {
 			case op[0] == "ids" && len(op) == 1:
 				if dup {
 					return "dup"
+				}
+				if !idAlpha {
+					return fmt.Sprintf("distinct len=%d alphabet=other", idLen)
 				}
 				return fmt.Sprintf("distinct len=%d", idLen)
 			default:
